@@ -722,6 +722,8 @@ class Emit:
         if k == "mcall" and e[1][0] == "path" and e[1][1] in ("self", "other") and e[1][1] not in env:
             name, args = e[2], e[3]
             series = "xs" if e[1][1] == "self" else "ys"
+            if name in ("len", "is_empty") and not getattr(self, "allow_len", False):
+                raise Unsupported(f"self.{name}() in an entry point that is not given the series length")
             if name == "len" and not args:
                 return "len", "Nat"
             if name == "is_empty" and not args:
@@ -1328,6 +1330,7 @@ def translate_idx_fn(name, body_src, sig_src):
         raise Unsupported("driver call without exactly one closure")
     clos = clos[0]
     em = Emit()
+    em.allow_len = True
     env = {"window": "Nat", "min_periods": "OptNat"}
     bools = re.findall(r"\b(\w+)\s*:\s*bool\b", sig_src)
     for b in bools:
